@@ -751,6 +751,11 @@ func runC08(s *kernel.Sim, enumerate bool) {
 			// (one failure per update), like R1/R2 above
 			continue
 		}
+		if d.i == 6 && secondUpdate && d.v == "415" {
+			// the /p5 probe met the flow of the second, overlapping update: that update is
+			// judged on its own (R5), not as a trace of the first one
+			continue
+		}
 		s.Rule("R4")
 		okv := d.v == vOld[d.i] || (vNewRef != nil && d.v == vNewRef[d.i])
 		if okv && code != 200 && d.v != vOld[d.i] {
